@@ -238,6 +238,7 @@ def main(modname, argv):
         else:
             descs = list(mod.plan(args.tier, args.seed, rng, args.scale))
         budget = args.budget or mod.BUDGET.get(args.tier)
+        t_cases = time.time()          # the case budget does not include build and preparation time
 
         evals = 0
         nontrivial = set()
@@ -266,7 +267,7 @@ def main(modname, argv):
                     inconcl.append(d)
                 for v in d['violations']:
                     viols.append((d['desc'], v))
-                if budget and time.time() - t0 > budget and done < len(descs):
+                if budget and time.time() - t_cases > budget and done < len(descs):
                     skipped = len(descs) - done
                     pool.terminate()
                     break
@@ -276,8 +277,11 @@ def main(modname, argv):
         if hasattr(mod, 'finalize'):
             agg_viol, agg_inconcl = mod.finalize(args.tier, counters, sets)
         required_missing = [c for c in getattr(mod, 'REQUIRED', {}).get(args.tier, []) if not counters.get(c)]
-        if skipped == 0 and required_missing:
-            agg_inconcl.append('required observation never made: ' + ','.join(required_missing))
+        if required_missing:
+            agg_inconcl.append('required observation never made%s: %s' % (' (%d cases not run: time budget)' % skipped if skipped else '',
+                                                                        ','.join(required_missing)))
+        if done == 0 or evals == 0:
+            agg_inconcl.append('no execution was judged')
 
         # ---- known findings
         known = [k for k in load_known() if k.get('property') == pid and k.get('status') == 'known']
